@@ -103,6 +103,8 @@ EigendecompositionResult eigendecomposition_impl_randomized(const MatrixType& wm
     MatrixOperationType operation(wm);
 
     DenseMatrix Y = operation(O);
+    // rank threshold relative to the magnitude of the sampled range (the result must not depend on the units of the data)
+    const ScalarType threshold = 1e-9 * Y.norm();
     for (IndexType i = 0; i < Y.cols(); i++)
     {
         for (IndexType j = 0; j < i; j++)
@@ -111,7 +113,7 @@ EigendecompositionResult eigendecomposition_impl_randomized(const MatrixType& wm
             Y.col(i) -= r * Y.col(j);
         }
         ScalarType norm = Y.col(i).norm();
-        if (norm < 1e-4 && i > 0)
+        if (norm <= threshold && i > 0)
         {
             // rank-deficient input: complete the orthonormal basis with the random direction itself
             Y.col(i) = O.col(i);
@@ -122,7 +124,7 @@ EigendecompositionResult eigendecomposition_impl_randomized(const MatrixType& wm
             }
             norm = Y.col(i).norm();
         }
-        else if (norm < 1e-4)
+        else if (norm <= threshold)
         {
             // numerically zero matrix: no direction to find
             throw eigendecomposition_error("eigendecomposition failed");
